@@ -17,6 +17,7 @@ var All = map[string]*fw.Prop{
 	"C13": C13,
 	"C14": C14,
 	"C15": C15,
+	"C19": C19,
 	"C16": C16,
 	"C17": C17,
 }
